@@ -1253,7 +1253,38 @@ fn fast_class(spec: &Spec, is_max: bool, obj: usize, fails: &[Fail]) -> &'static
                 // (the fast path declines while deferred constraints are waiting: repaired, unlisted)
                 SPost::Lin(..) | SPost::Fluent(..) | SPost::FluentVV(..) => "-",
                 SPost::PLin(..) => "fast-path-ignores-props-linear-rows",
-                SPost::Cmp(..) if extractable(p) => "fast-path-ignores-opposite-bounds",
+                // only a bound AGAINST the direction of optimisation is ignored by the router (maximize
+                // uses the upper bounds and ignores the lower ones, minimize the reverse); a violated
+                // bound in the direction of optimisation is not this recorded class
+                SPost::Cmp(..) if extractable(p) => {
+                    let lower = matches!(p, SPost::Cmp(Rel::Ge | Rel::Gt, Opnd::V(_), _) | SPost::Cmp(Rel::Le | Rel::Lt, Opnd::C(_) | Opnd::K(_), Opnd::V(_)));
+                    let upper = matches!(p, SPost::Cmp(Rel::Le | Rel::Lt, Opnd::V(_), _) | SPost::Cmp(Rel::Ge | Rel::Gt, Opnd::C(_) | Opnd::K(_), Opnd::V(_)));
+                    // … or when the bound rows on the objective variable are inconsistent with its domain
+                    // or with each other (the router then falls back to the domain bound)
+                    let cval = |o: &Opnd| match o { Opnd::C(c) => Some(*c), Opnd::K(k) => Some(*k as f64), Opnd::V(_) => None };
+                    let (mut lo, mut hi) = match spec.vars[obj] { SVar::F(a, b) => (a, b), SVar::I(a, b) => (a as f64, b as f64) };
+                    for q in &spec.posts {
+                        if let SPost::Cmp(rel, l, r) = q {
+                            let (v_left, c) = match (l, r) { (Opnd::V(x), o) if *x == obj => (true, cval(o)), (o, Opnd::V(x)) if *x == obj => (false, cval(o)), _ => (true, None) };
+                            if let Some(c) = c {
+                                match (rel, v_left) {
+                                    (Rel::Ge | Rel::Gt, true) | (Rel::Le | Rel::Lt, false) => lo = lo.max(c),
+                                    (Rel::Le | Rel::Lt, true) | (Rel::Ge | Rel::Gt, false) => hi = hi.min(c),
+                                    (Rel::Eq, _) => { lo = lo.max(c); hi = hi.min(c); }
+                                    _ => {}
+                                }
+                            }
+                        }
+                    }
+                    // (`x.eq(c)` on a float variable narrows its interval when it is posted)
+                    for q in &spec.posts {
+                        if let SPost::EqImm(x, c) = q {
+                            if *x == obj { lo = lo.max(*c); hi = hi.min(*c); }
+                        }
+                    }
+                    let inconsistent = lo > hi;
+                    if (is_max && lower) || (!is_max && upper) || matches!(p, SPost::Cmp(Rel::Eq, ..)) || inconsistent { "fast-path-ignores-opposite-bounds" } else { "-" }
+                }
                 SPost::Cmp(..) => "fast-path-unextracted-bound-shape",
                 // the posted `equals(x, const)` is a shape the router's bound extraction ignores
                 SPost::EqImm(..) => "fast-path-unextracted-bound-shape",
@@ -1942,6 +1973,15 @@ fn suite_exhaustive(out: &mut Out, u: usize) {
                 pool.push(SPost::Cmp(rel, Opnd::C(*c), Opnd::V(fx)));
             }
         }
+        if u >= 2 && li <= 1 {
+            // several bounds on the same side with different constants: the strongest one counts
+            pool.push(SPost::Cmp(Rel::Ge, Opnd::V(fx), Opnd::C(2.0)));
+            pool.push(SPost::Cmp(Rel::Gt, Opnd::V(fx), Opnd::C(3.25)));
+            pool.push(SPost::Cmp(Rel::Le, Opnd::V(fx), Opnd::C(8.0)));
+            pool.push(SPost::Cmp(Rel::Lt, Opnd::V(fx), Opnd::C(6.75)));
+            pool.push(SPost::Cmp(Rel::Ge, Opnd::C(7.5), Opnd::V(fx)));
+            pool.push(SPost::Cmp(Rel::Le, Opnd::C(1.5), Opnd::V(fx)));
+        }
         pool.push(SPost::Cmp(Rel::Le, Opnd::V(fx), Opnd::K(3)));
         pool.push(SPost::PLin(false, vec![2.0], vec![fx], 8.0));
         pool.push(SPost::PLin(true, vec![2.0], vec![fx], 8.0));
@@ -1984,6 +2024,22 @@ fn suite_exhaustive(out: &mut Out, u: usize) {
             let no_ne = !spec.posts.iter().any(|p| matches!(p, SPost::Cmp(Rel::Ne, ..)));
             emit_case(out, &format!("x{li}-{n}"), &spec, &objs, no_ne);
             n += 1;
+        }
+    }
+    // every ordered pair of constant bounds on one float variable (both spellings, strict and not,
+    // same side and opposite sides): the strongest bound of each side is the one that counts
+    let mut bounds: Vec<SPost> = vec![];
+    for (rel, c) in [(Rel::Ge, 2.0), (Rel::Ge, 4.0), (Rel::Gt, 3.25), (Rel::Le, 8.0), (Rel::Le, 6.0), (Rel::Lt, 6.75)] {
+        bounds.push(SPost::Cmp(rel, Opnd::V(0), Opnd::C(c)));
+        bounds.push(SPost::Cmp(flip(rel), Opnd::C(c + 0.5), Opnd::V(0)));
+    }
+    let mut k = 0;
+    for p in &bounds {
+        for q in &bounds {
+            if std::ptr::eq(p, q) { continue; }
+            let spec = Spec { digits: 2, vars: vec![SVar::F(0.0, 10.0)], posts: vec![p.clone(), q.clone()] };
+            emit_case(out, &format!("xb-{k}"), &spec, &[0], true);
+            k += 1;
         }
     }
 }
